@@ -763,10 +763,20 @@ def sec_hash(ctx):
         changed.append("HashGlue")
 
 
+@section("Msm")
+def sec_msm(ctx):
+    changed = ctx["changed"]
+    sys.path.insert(0, os.path.dirname(os.path.abspath(__file__)))
+    import extract_msm
+    manifest.extend(extract_msm.emit(REPO, GEN, ExtractError))
+    if getattr(extract_msm, "CHANGED", False):
+        changed.append("Msm")
+
+
 def main():
     os.makedirs(GEN, exist_ok=True)
     ctx = {"changed": []}
-    for sec in (sec_fields, sec_montprog, sec_derive, sec_fqconsts, sec_curve, sec_maps, sec_chains, sec_arith, sec_enc, sec_pair, sec_iso, sec_hash):
+    for sec in (sec_fields, sec_montprog, sec_derive, sec_fqconsts, sec_curve, sec_maps, sec_chains, sec_arith, sec_enc, sec_pair, sec_iso, sec_hash, sec_msm):
         sec(ctx)
     changed = ctx["changed"]
     with open(os.path.join(VERIF, "gen_manifest.json"), "w") as f:
